@@ -54,10 +54,10 @@ def generate(rng, tier):
     for i in range(n):
         clients = rng.range(1, 4)
         reqs = rng.range(1, 6)
-        tau = rng.choice([2000, 2000, 0])
+        tau = rng.choice([2000, 2000, 500, 1000, 0])
         faults = fixed[i] if i < len(fixed) else gen_faults(rng, clients)
         if tau == 0 and ('H' in faults or 'P' in faults):
-            tau = 2000      # without a client timeout a held or partitioned link pends for ever by design (turmoil never retransmits)
+            tau = rng.choice([2000, 500])      # without a client timeout a held or partitioned link pends for ever by design (turmoil never retransmits)
         cases.append(['case %d sim' % i, 'run %d %d %d %d %s' % (rng.below(1 << 31), clients, reqs, tau, faults), 'end'])
     return cases
 
